@@ -134,6 +134,30 @@ G4_ENTRY = {
 }
 
 
+def _rejecting_label(a):
+    """the outcome (True / False edge) of a validation atom on which the argument is to be rejected;
+    None for atoms this table does not know"""
+    if isinstance(a, ast.Call):
+        nm = call_name(a) or ''
+        if nm in ('inspect.isclass', 'isinstance', 'callable', 'dataclasses.is_dataclass'):
+            return False                      # not a class / not of the type / not callable
+        return None
+    if isinstance(a, ast.Compare) and len(a.ops) == 1:
+        op, r = a.ops[0], a.comparators[0]
+        l = a.left
+        # values that stand for "everything" / a documented stand-in, which the validation lets
+        # through: None and the namedtuple / structseq stubs for the class, the global sentinel
+        # for the namespace (a `namespace is None` test is the opposite: a missing argument)
+        sentinel = (is_name(l, 'cls') and ((isinstance(r, ast.Constant) and r.value is None) or
+                                           (isinstance(r, ast.Name) and r.id in ('namedtuple', 'structseq')))) or \
+            (isinstance(l, ast.Name) and 'namespace' in l.id and isinstance(r, ast.Name) and 'GLOBAL_NAMESPACE' in r.id)
+        if isinstance(op, (ast.Is, ast.IsNot)) and sentinel:
+            return isinstance(op, ast.IsNot)  # rejected only when it is NOT the sentinel
+        if isinstance(op, (ast.Eq, ast.NotEq)) and isinstance(r, ast.Constant) and r.value == '':
+            return isinstance(op, ast.Eq)     # the empty string is rejected
+    return None
+
+
 def _raise_guards(fn):
     out = []
     for s in walk(fn):
@@ -141,6 +165,36 @@ def _raise_guards(fn):
                 isinstance(s.body[-1].exc, ast.Call):
             out.append((s, src(s.test), call_name(s.body[-1].exc)))
     return out
+
+
+def _g4_polarity(ctx, mod, mname, fname, fn, cfg, guards):
+    # polarity: the raise of each validation is reached on the rejecting outcome of every atom of
+    # its test, and on no other (`not isinstance(namespace, str)` rejects non-strings, `namespace
+    # is not <sentinel>` lets the sentinel through, `namespace == ''` rejects the empty string)
+    for s_, t_, e_ in guards:
+        rn_ = cfg.node_of(s_.body[-1])
+        for cn_ in cfg.nodes:
+            if cn_.kind != 'cond' or cn_.ast is None or not any(x is cn_.ast for x in ast.walk(s_.test)):
+                continue
+            rej = _rejecting_label(cn_.ast)
+            if rej is None:
+                continue
+            good = cfg.reachable([w for (w, lab) in cfg.succ[cn_.idx] if lab is rej])
+            # the accepting outcome must not lead straight to the raise (through another atom
+            # of the same test it may: `not A or not B`)
+            bad_, work_ = set(), [w for (w, lab) in cfg.succ[cn_.idx] if lab is (not rej)]
+            while work_:
+                x_ = work_.pop()
+                if x_ in bad_:
+                    continue
+                bad_.add(x_)
+                if cfg.nodes[x_].kind != 'cond':
+                    work_ += [w for (w, _) in cfg.succ[x_]]
+            ctx.check('%s/polarity/%s' % (fname, src(cn_.ast)[:40]), rn_ in good and rn_ not in bad_,
+                      '%s.%s: `%s` leads to the %s exactly on its rejecting outcome' % (mname, fname, src(cn_.ast), e_),
+                      '%s.%s: the %s guarded by `%s` is raised on the wrong outcome of `%s`: valid arguments '
+                      'are rejected and the invalid ones reach the engine' % (mname, fname, e_, t_[:60], src(cn_.ast)),
+                      mod.loc(s_))
 
 
 @rule('G4', floor=16, title='every entry point that takes a registration namespace validates class and namespace before any engine call')
@@ -173,12 +227,53 @@ def g4(ctx):
         if takes_cls:
             checks.insert(0, ('class', lambda t: 'inspect.isclass(cls)' in t and 'not' in t,
                               'TypeError', 'a non-class raises TypeError'))
+        _g4_polarity(ctx, mod, mname, fname, fn, cfg, guards)
         for cid, pred, exc, what in checks:
             ctx.check('%s/%s' % (fname, cid), dominating(pred, exc),
                       '%s.%s: %s before %s is reached' % (mname, fname, what, sorted(engine)),
                       '%s.%s: no dominating check that %s: the engine (or the dataclass '
                       'machinery) is reached with an unvalidated argument' % (mname, fname, what),
                       mod.loc(fn))
+    # the global sentinel never reaches the engine: where it is what the caller passed, the
+    # namespace is replaced by '' on every path to a `_C.` call that takes it
+    for (mname, fname) in [k for k, v in G4_ENTRY.items() if any(e.startswith('_C.') for e in v[1])] + \
+            [('optree.registry', 'pytree_node_registry_get')]:
+        mod = pkg.mod(mname)
+        fn = mod.func(fname)
+        cfg = pycfg(fn)
+        ccalls = [c for c in calls_under(fn) if (call_name(c) or '').startswith('_C.') and
+                  any(is_name(a, 'namespace') for a in list(c.args) + [k.value for k in c.keywords])]
+        ctx.require(ccalls, '%s.%s: no engine call takes the namespace' % (mname, fname))
+        tests = [n for n in cfg.nodes if n.kind == 'cond' and isinstance(n.ast, ast.Compare) and
+                 len(n.ast.ops) == 1 and isinstance(n.ast.ops[0], (ast.Is, ast.IsNot)) and
+                 is_name(n.ast.left, 'namespace') and isinstance(n.ast.comparators[0], ast.Name) and
+                 'GLOBAL_NAMESPACE' in n.ast.comparators[0].id]
+        sets = {cfg.node_of(a) for a in walk(fn) if isinstance(a, ast.Assign) and len(a.targets) == 1 and
+                is_name(a.targets[0], 'namespace') and isinstance(a.value, ast.Constant) and a.value.value == ''}
+        sets.discard(None)
+        ok = False
+        why = 'no test of the namespace against the global sentinel'
+        for t in tests:
+            is_edge = isinstance(t.ast.ops[0], ast.Is)
+            start = [w for (w, lab) in cfg.succ[t.idx] if lab is is_edge]
+            r_ = cfg.reachable(start, skip_nodes=sets, skip_back=False)
+            leak = [c for c in ccalls if cfg.node_of(c) in r_]
+            doms = all(cfg.dominates(t.idx, cfg.node_of(c)) for c in ccalls)
+            if doms and not leak and sets:
+                ok = True
+            elif doms:
+                why = 'on the outcome "namespace is the sentinel" the call %s is reached without `namespace = \'\'`' \
+                    % (call_name(leak[0]) if leak else '?')
+        ctx.check('%s/sentinel-translated' % fname, ok,
+                  '%s.%s: the global sentinel is replaced by \'\' before every engine call that takes the namespace'
+                  % (mname, fname),
+                  '%s.%s: %s - the engine is asked about a namespace that is not a string (or the sentinel is '
+                  'translated on the wrong outcome)' % (mname, fname, why), mod.loc(fn))
+    # the lookup validates its arguments too (no engine call to protect, but the same polarity)
+    for mname, fname in (('optree.registry', 'pytree_node_registry_get'),):
+        mod = pkg.mod(mname)
+        fn = mod.func(fname)
+        _g4_polarity(ctx, mod, mname, fname, fn, pycfg(fn), _raise_guards(fn))
 
 
 # ---------------------------------------------------------------------------------------------
@@ -203,6 +298,22 @@ def k6py(ctx):
               s_ in cfg.reachable([g_]) and t_ in cfg.reachable([s_]) and s_ not in cfg.reachable([t_]),
               'per-class lookup: registry, then struct sequence, then namedtuple (engine order)',
               'per-class lookup does not probe registry -> struct sequence -> namedtuple', mod.loc(ss[0]))
+    # each fallback answer is given on the positive outcome of its own recogniser, and only there
+    for probe, stub in ((ss[0], 'structseq'), (nt[0], 'namedtuple')):
+        rets_ = [r for r in walk(fn) if isinstance(r, ast.Return) and r.value is not None and
+                 pmatch(r.value, MIRROR + '.get(%s)' % stub) is not None]
+        pn = cfg.node_of(probe)
+        ok_ = False
+        if len(rets_) == 1 and pn is not None and cfg.nodes[pn].kind == 'cond':
+            rn = cfg.node_of(rets_[0])
+            yes = cfg.reachable([w for (w, lab) in cfg.succ[pn] if lab is True])
+            no = cfg.reachable([w for (w, lab) in cfg.succ[pn] if lab is False])
+            ok_ = rn in yes and rn not in no
+        ctx.check('registry_get/%s-answer-on-a-hit' % stub, ok_,
+                  'the %s entry is the answer exactly when %s says yes' % (stub, call_name(probe)),
+                  'the %s entry is not returned on (and only on) the positive outcome of %s: classes '
+                  'of that family are listed as leaves, and other classes as %s nodes'
+                  % (stub, call_name(probe), stub), mod.loc(probe))
     # namespace lookup only for a non-empty namespace
     guard = [s for s in walk(fn) if isinstance(s, ast.If) and src(s.test) == "namespace != ''" and
              any(x is named[0] for b in s.body for x in ast.walk(b))]
@@ -1069,6 +1180,37 @@ def d4(ctx):
               'registry.get consults the mode before every answer that could be the sorted dict / defaultdict entry',
               'registry.get can return `%s` without having consulted the dict-order mode'
               % (src(unguarded[0].value) if unguarded else ''), mod.loc(unguarded[0]) if unguarded else mod.loc(fn))
+    # each overlay entry is handed out for its own class only
+    def reachable_for(rn, assumed):
+        seen = {cfg.entry.idx}
+        work = [cfg.entry.idx]
+        while work:
+            x = work.pop()
+            if x == rn:
+                return True
+            node = cfg.nodes[x]
+            for to, lab in cfg.succ[x]:
+                if to in seen:
+                    continue
+                if node.kind == 'cond' and lab in (True, False) and node.ast is not None:
+                    v = outcome_if(node.ast, assumed)
+                    if v is not None and v != lab:
+                        continue
+                seen.add(to)
+                work.append(to)
+        return False
+    for r in rets:
+        v = src(r.value)
+        if 'INSERTION_ORDERED' not in v:
+            continue
+        own = 'defaultdict' if 'DEFAULTDICT' in v else 'dict'
+        other = 'dict' if own == 'defaultdict' else 'defaultdict'
+        rn = cfg.ast_to_node.get(id(r))
+        ctx.check('registry.get/overlay-for-its-own-class/%s' % own,
+                  reachable_for(rn, own) and not reachable_for(rn, other) and not reachable_for(rn, 'list'),
+                  'the insertion-ordered %s entry is returned for %s and for no other class' % (own, own),
+                  '`return %s` is reachable for a class other than %s (or not for %s): the registry shows '
+                  'the wrong entry for that class' % (v, own, own), mod.loc(r))
     kinds = {}
     for n in walk(fn):
         if isinstance(n, ast.Assign) and isinstance(n.targets[0], ast.Subscript) and 'INSERTION_ORDERED' in src(n.value):
